@@ -66,6 +66,19 @@ Proof.
 Qed.
 Print Assumptions C25_untracked_partial.
 
+(* "the worktree is EXACTLY the target plus what was untracked": also false in
+   the other direction — a staged new file is left behind as an untracked file
+   (git reset --hard removes it); witness replayed (corpus/C25/staged_new_kept.json) *)
+Theorem C25_staged_new_refuted :
+  exists s commit s' p e,
+    reset commit Hard None s = (None, s') /\
+    lookup p (idx s) = Some e /\ lookup p (idx s') = None /\ lookup p (wt s') = Some e.
+Proof.
+  destruct hard_keeps_staged_new as (s' & H1 & H2 & H3 & H4).
+  exists w_state2, 1%Z, s', (b "s"), (KReg, b "S"). repeat split; auto.
+Qed.
+Print Assumptions C25_staged_new_refuted.
+
 (* non-vacuity: a forced checkout by branch over a dirty worktree with an
    untracked file; the result is the target tree plus the untracked file *)
 Example C25_example :
